@@ -370,3 +370,50 @@ Example C05_source_order_by_hypotheses_satisfiable :
 Proof.
   exists (fun k _ => match k with 0%nat => PNone | 1%nat => PBool false | _ => nref 0 end). repeat split.
 Qed.
+
+(* Compiler._compile_pivot_by = Compile.compile_pivot_by, for every target list, pair of PIVOT BY columns (position or
+   name) and group_indexes: a position is checked against the number of VISIBLE targets, a name resolves to the last
+   target of that name, the two columns must differ, the second one must be one of the group indexes (None: rejected) *)
+Theorem C05_source_compile_pivot_by :
+  forall (call_ref : nat -> list pv -> pv) (tbl : nat -> Compile.cnode) (kids : nat -> list nat)
+         (mro : string -> list string) (msg : string -> list pv -> pv)
+         (pts : list ptarget) (p1 p2 : Compile.pcol) (gi : option (list nat)) (flds : env),
+  call_method call_ref (prim_compiler tbl kids mro msg) Verif.Gen.SrcCompiler.compile_pivot_by flds
+    [Verif.Proofs.SrcCompiler.enc_pivot_by p1 p2; PList (map enc_target pts); Verif.Proofs.SrcCompiler.enc_gi gi] =
+  match Compile.compile_pivot_by (map (Verif.Proofs.SrcCompiler.T tbl) pts) gi (Some (p1, p2)) with
+  | Compile.Err e => Exc (CompErr e)
+  | Compile.Ok (Some (i1, i2)) => PyMini.Ok (flds, Verif.Proofs.SrcCompiler.enc_idxs [i1; i2])
+  | Compile.Ok None => PyMini.Ok (flds, PNone)
+  end.
+Proof. exact Verif.Proofs.SrcCompiler.pivot_by_src. Qed.
+Print Assumptions C05_source_compile_pivot_by.
+
+(* is_aggregate(node) = Compile.has_agg and get_columns_and_aggregates(node) = the two accumulators of the walk started
+   empty; the recursive walk itself (_get_columns_and_aggregates) is an opaque callable here, assumed to return the
+   model's lists (Compile.cols_aggs) as heap references *)
+Theorem C05_source_is_aggregate :
+  forall (call_ref : nat -> list pv -> pv) (tbl : nat -> Compile.cnode) (kids : nat -> list nat)
+         (mro : string -> list string) (msg : string -> list pv -> pv) (kg i : nat) (cs ags : list nat),
+  ref_of Verif.Gen.SrcCompiler.refs "beanquery.compiler.get_columns_and_aggregates" = Some kg ->
+  call_ref kg [nref i] = PTuple [PList (map nref cs); PList (map nref ags)] ->
+  map tbl ags = snd (Compile.cols_aggs (tbl i)) ->
+  call_function call_ref (prim_compiler tbl kids mro msg) Verif.Gen.SrcCompiler.is_aggregate [nref i] =
+  PyMini.Ok (PBool (Compile.has_agg (tbl i))).
+Proof. exact Verif.Proofs.SrcCompiler.is_aggregate_src. Qed.
+Print Assumptions C05_source_is_aggregate.
+
+Theorem C05_source_get_columns_and_aggregates :
+  forall (call_ref : nat -> list pv -> pv) (tbl : nat -> Compile.cnode) (kids : nat -> list nat)
+         (mro : string -> list string) (msg : string -> list pv -> pv) (kr i : nat) (c a : pv),
+  ref_of Verif.Gen.SrcCompiler.refs "beanquery.compiler._get_columns_and_aggregates" = Some kr ->
+  call_ref kr [nref i; PList []; PList []] = PTuple [c; a] ->
+  call_function call_ref (prim_compiler tbl kids mro msg) Verif.Gen.SrcCompiler.get_columns_and_aggregates [nref i] =
+  PyMini.Ok (PTuple [c; a]).
+Proof. exact Verif.Proofs.SrcCompiler.get_columns_and_aggregates_src. Qed.
+Print Assumptions C05_source_get_columns_and_aggregates.
+
+(* NOT YET TIED BY PROOF (translated and regenerated on every run, so a change is visible in Gen/SrcCompiler.v; the
+   correspondence streams remain their only check): Compiler._compile_group_by (C05_source_compile_group_by: the same
+   statement as for ORDER BY over Compile.compile_group_by, with the HAVING target and the implicit GROUP BY),
+   _get_columns_and_aggregates and check_aggregates (one level of the walk with the recursive call opaque),
+   Compiler._unaryop / _between (overload selection; translated), Compiler._binaryop (outside the fragment: `while True`). *)
